@@ -8,6 +8,8 @@ namespace Aiorpcx.C07
 
 abbrev Bytes := List UInt8
 
+deriving instance DecidableEq for Except
+
 /-- Python exceptions `BitcoinFramer.frame` can raise by itself -/
 inductive PyExc where
   | valueError      -- `pad_command`: command longer than 12 bytes
@@ -102,10 +104,8 @@ def hCk (h : Bytes) : Bytes := ((((h.drop magicW).drop cmdW).drop lenW)).take ck
 /-- `_receive_header` on the 24 header bytes: magic test first, then strip, then size test -/
 def parseHeader (cfg : Cfg) (h : Bytes) : Except FrameErr (Bytes × Nat × Bytes) :=
   if hMagic h != cfg.magic then .error .badMagic
-  else
-    let cmd := rstripNul (hCmd h)
-    if oversized cfg cmd (hLen h) then .error .oversized
-    else .ok (cmd, hLen h, hCk h)
+  else if oversized cfg (rstripNul (hCmd h)) (hLen h) then .error .oversized
+  else .ok (rstripNul (hCmd h), hLen h, hCk h)
 
 /-! ### `ByteQueue` -/
 
@@ -284,7 +284,7 @@ def sessRun : List Out → Sess → Sess
   | .msg c p :: r, s => sessRun r { s with delivered := s.delivered ++ [(c, p)] }
   | .err e :: r, s =>
       let a := policy e
-      let s' := { s with errors := s.errors + a.bump, closed := a.close }
+      let s' := { s with errors := s.errors + a.bump, closed := s.closed || a.close }
       if a.close then s' else sessRun r s'
 
 end Aiorpcx.C07
